@@ -465,8 +465,11 @@ class _Gen:
             # a file-level extension and a top-level message of an imported file of the same package have the same
             # parent NAME without being declared in the same scope
         name = self.gl_field_name(tname, same_scope)
+        used = self.__dict__.setdefault("gl_used", set())
+        if (here, name) in used:
+            name = "f%d" % self.uid()
+        used.add((here, name))
         opts = []
-        file_enc = self.file_feature("message_encoding")
         r = rng.below(8)
         if r < 4:
             opts.append("features.message_encoding = DELIMITED")
